@@ -3,8 +3,9 @@
 // on a tds.PacketQueue and print the case lines.
 //
 // Case functions (fn):
-//   1  encode:  input (tok fields)                output (0 #bytes refok) | (2)      — bytes incl. the token byte
-//   2  decode:  input (tok #body ctx expected)    output (class consumed fields)     — body = bytes after the token
+//   1  encode:  input (tok fields claim)          output (0 #bytes refok) | (2)      — bytes incl. the token byte
+//   2  decode:  input (tok #body ctx expected claim) output (class consumed fields)  — body = bytes after the token
+//      claim = 1 iff the case lies in the domain of the round-trip property (see Claims)
 //   3  prefixes: input (tok #body ctx valid)      output (class ...) for every proper prefix of body (length 0..len-1);
 //                valid = 1 iff the implementation parses the whole body successfully consuming all of it
 //   4  malformed: input (tok #body ctx)           output (class)                     — arbitrary bytes; class only
@@ -17,6 +18,7 @@ import (
 	"fmt"
 	"path/filepath"
 	"runtime"
+	"strings"
 
 	"github.com/SAP/go-dblib/tds"
 	"verifharness/sx"
@@ -54,6 +56,37 @@ func RunAll(g *Gen, groups map[string]bool) {
 			e.f(g)
 		}
 	}
+}
+
+// Claims reports whether a case lies in the domain of the round-trip property (C06): well-formed field values
+// of a package the library implements. Classes outside it are still compared with the model, but the
+// specification predicate claims nothing about them:
+//   *-nonwf      lengths / integers that do not fit their prefix or field (the writers truncate silently)
+//   mal-*        malformed bodies
+//   tokenless    unknown tokens (the reader never succeeds by design)
+//   control-stub TDS_CONTROL is a stub that writes and reads nothing
+//   key, key-nonwf, key-writer-wrong-bytes: the KEY reader yields Go values that are compared only for some types;
+//                (key-writer-panic stays a claim: it is the recorded finding)
+func Claims(tag string) bool {
+	class := tag
+	if i := strings.Index(tag, ";"); i >= 0 {
+		class = tag[:i]
+	}
+	if strings.HasSuffix(class, "-nonwf") || strings.HasPrefix(class, "mal-") {
+		return false
+	}
+	switch class {
+	case "tokenless", "control-stub", "key", "key-nonwf", "key-writer-wrong-bytes":
+		return false
+	}
+	return true
+}
+
+func claimT(tag string) sx.T {
+	if Claims(tag) {
+		return sx.I(1)
+	}
+	return sx.I(0)
 }
 
 func Class(err error) int64 {
@@ -104,7 +137,7 @@ func (g *Gen) EncCase(tok int, fields sx.T, pkg tds.Package, refDecode func(bs [
 	if !g.Want[1] {
 		return bs
 	}
-	in := sx.L{sx.I(int64(tok)), fields}
+	in := sx.L{sx.I(int64(tok)), fields, claimT(tag)}
 	switch {
 	case panicked:
 		g.Out.Case(1, in, sx.L{sx.I(-1)}, tag)
@@ -176,7 +209,7 @@ func (g *Gen) DecCase(tok int, body []byte, ctx sx.T, last tds.Package, expected
 		if p.Class == 0 {
 			fields = render(p.Pkg)
 		}
-		g.Out.Case(2, sx.L{sx.I(int64(tok)), sx.B(body), ctx, expected}, sx.L{sx.I(p.Class), sx.I(int64(p.Consumed)), fields}, tag)
+		g.Out.Case(2, sx.L{sx.I(int64(tok)), sx.B(body), ctx, expected, claimT(tag)}, sx.L{sx.I(p.Class), sx.I(int64(p.Consumed)), fields}, tag)
 	}
 	if g.Want[3] {
 		// valid = the implementation parses the complete body successfully and consumes all of it
